@@ -14,7 +14,8 @@ EXPLANATION = ("(reg-map) in ThreadInfoX86::fill_cpu_context every integer/flag/
                "suspend_threads precedes every call that can read the target, and in generate_dump no call with effect reads_target is "
                "reachable after resume_threads (effect summaries over the call graph seeded by a table of foreign leaves); "
                "(skip-only-null-sp) an attached thread is dropped exactly when getregs failed or rsp == 0; (regs-source) ThreadInfo.regs/"
-               "fpregs/dregs/stack_pointer come from ptrace requests on the same tid.")
+               "fpregs/dregs/stack_pointer come from ptrace requests on the same tid; (thread-list-mutators) PtraceDumper::threads is written only by "
+               "enumerate_threads (push) and suspend_threads (retain keyed on the attach result): every other writer in the crate is reported.")
 TRUSTED = ["ptrace returns the stopped thread's registers", "tables/abi_x86_64.json", "foreign-leaf effect table (reads_target seeds)"]
 ASSUMPTIONS = ["enumeration races with thread creation/exit are kernel schedules, not decided here",
                "only the x86_64 configuration is compiled on this host"]
@@ -277,9 +278,51 @@ def rule_skip_only_null_sp(ctx):
     ctx.floor(R, "DetachSkippedThread exits", n, 1)
 
 
+# who may change the thread list (it is what the thread-list stream ranges over, C04/one-per-thread):
+# (function, Vec method reached through `&mut self.threads`) -> why the change keeps "every attached thread exactly once"
+THREAD_LIST_MUTATORS = {
+    (PD + "::enumerate_threads", "push"): "appends one entry per numeric /proc/<pid>/task name, before any attach",
+    (PD + "::suspend_threads", "retain"): "drops exactly the tids whose attach failed (predicate decided by C03/attach-detach|retain-iff-ok)",
+}
+
+
+def _is_threads(pl):
+    return any(x.get("k") == "field" and x.get("n") == "threads" and (x.get("adt") or "").endswith("ptrace_dumper::PtraceDumper") for x in pl["proj"])
+
+
+def rule_thread_list_mutators(ctx):
+    """ownership: the list is built once by enumerate_threads and only ever shrunk by the attach filter; any other writer
+    (remove/swap/insert/element store) can lose or duplicate an attached thread without the record loop noticing"""
+    R = "C04/thread-list-mutators"
+    found = {}
+    for b in ctx.prog.bodies:
+        for bi, blk in enumerate(b.blocks):
+            for si, st in enumerate(blk["stmts"]):
+                if st["k"] != "assign":
+                    continue
+                if _is_threads(st["p"]):
+                    found.setdefault((b.short, "store"), b.where(bi, si))
+                r = st["r"]
+                if r["k"] in ("ref", "addr", "rawptr") and r.get("bk", "mut") != "shared" and "p" in r and _is_threads(r["p"]):
+                    tmp = st["p"]["l"]
+                    how = "borrow"
+                    for ci, t in b.calls():
+                        if any(a.get("k") == "move" and a["p"]["l"] == tmp and not a["p"]["proj"] for a in t["args"]):
+                            how = (CalleeView(t["callee"]).short or "?").split("::")[-1]
+                    found.setdefault((b.short, how), b.where(bi, si))
+    for k, where in sorted(found.items()):
+        why = THREAD_LIST_MUTATORS.get(k)
+        ctx.check(why is not None, R, ("mutator", k[0].split("::")[-1], k[1]), where,
+                  "%s changes the thread list through %s: %s" % (k[0].split("::")[-1], k[1], why),
+                  "%s changes PtraceDumper::threads through `%s`, which is not one of the reviewed writers (enumerate_threads/push, suspend_threads/retain): "
+                  "entries can be lost, kept or duplicated independently of which threads were attached" % (k[0], k[1]))
+    ctx.floor(R, "reviewed writers of PtraceDumper::threads present", len([k for k in found if k in THREAD_LIST_MUTATORS]), 2)
+
+
 def run(ctx):
     rule_reg_map(ctx)
     rule_regs_source(ctx)
     rule_one_per_thread(ctx)
     rule_window(ctx)
     rule_skip_only_null_sp(ctx)
+    rule_thread_list_mutators(ctx)
